@@ -90,9 +90,33 @@ REFUSED = ['ENCA\tHostName(%s)\t' % ('ab' * 1100),
            'ENC\tC(0,1,2,3,4,[MessageType(Hello);Challenge(%s)])\t' % ('ef' * 2000)]
 
 
+REFUSED_HIDE = ['HIDE\tHostName(%s)\t736563726574\t01020304\t\t%s' % ('ab' * 1100, '00' * 16),
+                'HIDE\tChallenge(%s)\t\t0a0b0c0d\t0102\t%s' % ('cd' * 1020, '11' * 16)]
+
+
 def run_compare(ctx, rep, cases, tags, observe, which=IMPLS, nontrivial=None, rule=None):
     """Run cases on the model and the implementation builds; compare through `observe`.
     -> {executor: results}.  BADCASE on either side excludes the case (and is counted)."""
+    if len(cases) >= 40 and sum(1 for c in cases[:400] if c.split('\t', 1)[0] in ('HIDE', 'REVEAL')) >= 10:
+        # every ~150 cases a hide() that must be refused (an AVP over 1023 octets: it panics, the harness catches it): whatever the
+        # unwinding leaves behind on that thread would show in the hide / reveal calls that follow
+        ext, keep = [], []
+        for i, c in enumerate(cases):
+            if i % 150 == 11:
+                ext.append(REFUSED_HIDE[(i // 150) % len(REFUSED_HIDE)])
+            keep.append(len(ext))
+            ext.append(c)
+        full = ctx.runner.run(ext, ('model',) + tuple(which))
+        for w in full:
+            for j, c in enumerate(ext):
+                if c in REFUSED_HIDE and not full[w][j].startswith('PANIC') and w != 'model':
+                    rep.fail('hiding an oversize AVP was not refused', case=c[:200], executor=w, result=full[w][j][:200])
+        res = {w: [full[w][j] for j in keep] for w in full}
+        return _compare(ctx, rep, cases, tags, observe, which, nontrivial, res)
+    return _run_compare(ctx, rep, cases, tags, observe, which, nontrivial, rule)
+
+
+def _run_compare(ctx, rep, cases, tags, observe, which=IMPLS, nontrivial=None, rule=None):
     if len(cases) >= 40 and sum(1 for c in cases[:400] if c.split('\t', 1)[0] in ('ENC', 'ENCA', 'ENCS', 'ENCW', 'ENCAW')) >= 10:
         # every ~120 cases a write the encoder must refuse (it panics, the harness catches it): whatever a caught panic
         # leaves behind on that thread would show in the cases that follow
@@ -110,6 +134,10 @@ def run_compare(ctx, rep, cases, tags, observe, which=IMPLS, nontrivial=None, ru
         res = {w: [full[w][j] for j in keep] for w in full}
     else:
         res = ctx.runner.run(cases, ('model',) + tuple(which))
+    return _compare(ctx, rep, cases, tags, observe, which, nontrivial, res)
+
+
+def _compare(ctx, rep, cases, tags, observe, which, nontrivial, res):
     mod = res['model']
     for i, c in enumerate(cases):
         rep.evaluations += 1
@@ -945,7 +973,8 @@ def run_c07(ctx):
     cases, tags, expect = [], [], []   # expect: 'fit' | 'oversize' | None (unknown)
     # AVP sizes straddling 255/256 and 1023/1024
     for k in ['HostName', 'Challenge', 'PrivateGroupId', 'ProxyAuthenName']:
-        for n in [1, 249, 250, 251, 255, 256, 1016, 1017, 1018, 1019, 1100, 2000, 65529, 65530, 65531, 66000, 66553, 66554, 70000, 131072, 131700]:
+        for n in [1, 249, 250, 251, 255, 256, 1016, 1017, 1018, 1019, 1100, 2000, 65529, 65530, 65531, 66000, 66553, 66554, 70000, 131072, 131700] + \
+                 ([(1 << e) - 6 + d for e in (18, 19, 20) for d in (0, 1, 500)] if k == 'HostName' else []):
             cases.append('ENCA\t%s(%s)\t%s' % (k, rbytes(rng, n).hex(), rbytes(rng, rng.randrange(0, 4)).hex()))
             tags.append('avp_bytes_%d' % n); expect.append('fit' if 6 + n <= 1023 else 'oversize')
     for n in [1, 250, 1017, 1018, 1300]:
@@ -1261,6 +1290,19 @@ def run_c10(ctx):
         ms = [msg_of(r1[w][i]) for i in idx]
         s2 = ['ENC\t%s\t' % m for m in ms]
         r2 = run_compare(ctx, rep, s2, ['reenc'] * len(s2), o_class, which=(w,))
+        # ... and behind a prefix exactly as long as what the input carried in excess of its re-encoding (the decoded value
+        # remembers the Length it was read with; the writer position then coincides with the difference)
+        sp, spj = [], []
+        for j, r in enumerate(r2[w]):
+            if r.startswith('Ok ') and ms[j].startswith('C('):
+                d = ctrl_parts(ms[j])[0] - len(r[3:]) // 2
+                if 0 < d <= 64:
+                    sp.append('ENC\t%s\t%s' % (ms[j], rbytes(rng, d).hex())); spj.append(j)
+        rp = run_compare(ctx, rep, sp, ['reenc_behind_excess'] * len(sp), lambda c, r: r, which=(w,))
+        for c, j, r in zip(sp, spj, rp[w]):
+            pre = c.split('\t')[2]
+            if not (r.startswith('Ok ' + pre) and r[3 + len(pre):] == r2[w][j][3:]):
+                rep.fail('re-encoding behind a prefix does not append the same octets', case=c[:500], executor=w, got=r[:300], into_empty=r2[w][j][:300])
         s3, keep = [], []
         for j, r in enumerate(r2[w]):
             if not r.startswith('Ok '):
@@ -1292,6 +1334,8 @@ def run_c10(ctx):
 
 # =============================================================================== C11 / C12 / C13
 SECRET_LENS = list(range(0, 300)) + [511, 512, 513, 1009, 1018, 1023, 1024]
+# a fixed buffer of 2^k octets, less what else goes into it (type, random vector, a 16-octet block): drawn rarely, the Model's MD5 is slow
+SECRET_LENS_POW2 = [(1 << k) - d for k in range(9, 13) for d in range(0, 25)]
 
 
 # pairs of distinct equal-length octet strings that collide under a common non-cryptographic 32-bit hash started from its
@@ -1337,6 +1381,8 @@ def rsecret(rng):
     if c < 0.45:
         return rng.choice([b'', b's', rbytes(rng, rng.randrange(1, 9)), rbytes(rng, rng.choice([16, 55, 56, 64, 100]))])
     if c < 0.9:
+        if rng.random() < 0.03:
+            return rbytes(rng, rng.choice(SECRET_LENS_POW2))
         return rbytes(rng, rng.choice(SECRET_LENS))      # every length up to 299: buffers sized from the secret
     s = rbytes(rng, rng.randrange(3, 40))
     return rng.choice([b'\xef\xbb\xbf' + s, s + b'\x00', b' ' + s + b' ', s.replace(b'\x00', b'\x01'), b'tunnel-Aa' + s[:4], b'tunnel-BB' + s[:4]])
@@ -1624,6 +1670,13 @@ def reveal_cases(ctx, n):
             tag = 'well_formed'
         cases.append('REVEAL\tHidden(%d,%s)\t%s\t%s' % (t, val.hex(), s.hex(), rv.hex()))
         tags.append(tag); must_err.append(me); ann.append(t)
+        if tag == 'well_formed' and rng.random() < 0.3:
+            # the same octets, secret and random vector replayed right away under another attribute type (of the same shape when
+            # there is one): what is returned must still be of the type announced now, or an error
+            same = [x for x in TYPE_KIND if x != t and t in TYPE_KIND and KINDS[TYPE_KIND[x]][1] == KINDS[TYPE_KIND[t]][1]]
+            t2 = rng.choice(same) if same and rng.random() < 0.8 else rng.choice([x for x in range(0, 45) if x != t])
+            cases.append('REVEAL\tHidden(%d,%s)\t%s\t%s' % (t2, val.hex(), s.hex(), rv.hex()))
+            tags.append('replayed_under_other_type'); must_err.append(False); ann.append(t2)
     return cases, tags, must_err, ann
 
 
@@ -2483,6 +2536,24 @@ def run_c20(ctx):
         pos = rng.randrange(1, len(recs) + 1)
         b = ctrl_bytes(b''.join(recs[:pos] + [avp_rec(t, pay, m=rng.choice([0, 1]))] + recs[pos:]))
         inj.append('DEC\t2\t%s' % b.hex()); want.append('Err [InvalidUtf8(%d)]' % t)
+    # a hidden AVP that decrypts to a value too short for its type: the error still names that AVP
+    hinj, hwant = [], []
+    for _ in range(ctx.scale(300, 3000)):
+        t = rng.choice([x for x in TYPE_KIND if MIN_LEN[KINDS[TYPE_KIND[x]][1]] > 1])
+        n = rng.randrange(1, MIN_LEN[KINDS[TYPE_KIND[t]][1]])
+        sec, rv = rsecret(rng)[:64], rbytes(rng, 4)
+        plain = be(6 + n, 2) + rbytes(rng, n) + rbytes(rng, rng.randrange(0, 20))
+        plain += bytes((16 - len(plain) % 16) % 16)
+        hinj.append('REVEAL\tHidden(%d,%s)\t%s\t%s' % (t, ref_encrypt_plain(t, plain, sec, rv).hex(), sec.hex(), rv.hex()))
+        hwant.append('Err IncompleteAVP(%d)' % t)
+    rhj = run_compare(ctx, rep, hinj, ['hidden_truncated'] * len(hinj), lambda c, r: r)
+    for w in IMPLS:
+        for c, e, r in zip(hinj, hwant, rhj[w]):
+            if r != e:
+                rep.fail('revealing a hidden AVP whose value is too short does not report IncompleteAVP with its attribute type', case=c[:400], executor=w, got=r[:200], expected=e)
+    # every data-message shape of the grid (flag combinations x offset sizes x payload sizes x Length values): the error, if any, in full
+    dg = ['DEC\t%d\t%s' % (rng.randrange(8) & 6, b.hex()) for (_, b) in corpus.data_grid(rng, ctx.thorough)]
+    run_compare(ctx, rep, dg, ['data_grid'] * len(dg), lambda c, r: r)
     ri = run_compare(ctx, rep, inj, ['fault_injection'] * len(inj), lambda c, r: r)
     for w in IMPLS:
         for c, e, r in zip(inj, want, ri[w]):
